@@ -11,6 +11,10 @@ rotate, translate, surface / well / centre / header-option assignments).  Each c
 
 so a writer defect and a reader defect cannot cancel.  Nothing is sampled: every spec of the stated cross
 products is evaluated.
+
+When a re-read geometry does not have the unit type that was written (finding F8 of DESIGN.md section 2), that is
+reported once per direction and the comparison goes on with a second read in which the unit type is preset on the
+empty geometry (the work-round a user has), so that the unit scaling of every record kind is still explored.
 """
 import contextlib
 import io
@@ -35,7 +39,8 @@ RULE = ('every spec of: [opt] rectangular nx,ny in 1..3 x 3 spacing patterns x 4
         'pair and the full set of specified column centres; [limits] coordinates at 9999999.99 / -999999.99 (wells '
         '99999999.9 / -9999999.9) in metres and in feet; [shipped] g1..g7 as read x atmosphere types x units x '
         'block orders; [derived] 3x2 and g7 refined by each single column and by all, reduced to each half, rotated '
-        '30 degrees, translated.  Each spec: library write -> reference reader, library write -> library read -> '
+        '30 degrees, translated; g7 with the surface of each single column, each pair of consecutive columns and all '
+        'columns reset.  Each spec: library write -> reference reader, library write -> library read -> '
         'compare + rewrite, reference writer (Fortran styles) -> library read.  A case is non-trivial when the '
         'geometry has at least one column and one layer; distinct = distinct spec.')
 ASSUMPTIONS = [
@@ -61,7 +66,7 @@ BOUNDS = {
               'derived': '3x2 only', 'styles': '2 reference-writer styles (+16-style cross on the names group)'},
     'thorough': {'opt': '27 shape/spacing bases x 96 header options x 4 angle/size settings', 'surf': '3x2, 64 subsets x '
                  '5 kinds x 4 conv x 3 atm x 2 units', 'wells': '0..3 wells x 2..6 points', 'shipped': 'g1..g7',
-                 'derived': '3x2 and g7 (each of its 108 columns)', 'styles': '4 reference-writer styles (+16-style '
+                 'derived': '3x2 and g7 (each of its 108 columns; surface singles, consecutive pairs, all)', 'styles': '4 reference-writer styles (+16-style '
                  'cross on the names group)'}}
 TECHNIQUE = ('bounded exhaustive enumeration of geometry configurations on the real mulgrid.write / mulgrid.read, '
              'cross-checked in both directions by a reference fixed-column reader/writer frozen from the format '
@@ -208,11 +213,19 @@ def specs_derived(tier):
         for d in (['refine_all'], ['reduce', 0], ['reduce', 1], ['rotate', 30.0], ['translate', [12.34, -56.78, 9.87]]):
             for unit in ('m', 'ft'):
                 out.append({'base': 'g7', 'unit': unit, 'derive': d})
+        # a larger irregular geometry: surface of every single column, every pair of consecutive columns, all
+        for i in range(108):
+            out.append({'base': 'g7', 'surface': {'cols': [i], 'kind': 'mixed'}})
+        for i in range(107):
+            out.append({'base': 'g7', 'surface': {'cols': [i, i + 1], 'kind': 'mixed'}})
+        for kind in ('above', 'boundary', 'mid', 'lowedge', 'mixed'):
+            for unit in ('m', 'ft'):
+                out.append({'base': 'g7', 'unit': unit, 'surface': {'cols': list(range(108)), 'kind': kind}})
     return out
 
 
 GROUPS = [('opt', specs_opt, 48), ('surf', specs_surf, 32), ('wells', specs_wells, 8), ('names', specs_names, 8),
-          ('limits', specs_limits, 2), ('shipped', specs_shipped, 64), ('derived', specs_derived, 16)]
+          ('limits', specs_limits, 2), ('shipped', specs_shipped, 64), ('derived', specs_derived, 32)]
 
 
 def units(tier):
